@@ -1,7 +1,7 @@
 (* C05: the lon/lat validity test shared by the numpy and the dask/xarray pipelines, and the resampler objects'
    state (neighbour-info cache of the future resampler, overwritten attributes of the legacy one).  Definitions only. *)
 From Coq Require Import ZArith List Bool.
-From PR Require Import Base.Num.
+From PR Require Import Base.Num Base.ListX Model.Blockwise.
 Import ListNotations.
 Open Scope Z_scope.
 
@@ -54,3 +54,15 @@ Section Cache.
     | Sample :: r => st :: run_legacy st r
     end.
 End Cache.
+
+(* XArrayResamplerNN._get_valid_dims / KDTreeNearestXarrayResampler._verify_data_geo_dims: which data dims are accepted
+   for a geometry with dims [geo] (names as integers); anything else raises ValueError *)
+Fixpoint zindex (d : Z) (l : list Z) : nat :=          (* tuple.index *)
+  match l with
+  | [] => 0%nat
+  | x :: r => if Z.eqb x d then 0%nat else S (zindex d r)
+  end.
+Definition geo_dims_ok (dims geo : list Z) : bool :=
+  let data_geo_dims := filter (fun d => memb d geo) dims in             (* tuple(d for d in data.dims if d in src_geo_dims) *)
+  list_eqb Z.eqb data_geo_dims geo                                       (* != src_geo_dims -> "do not match" *)
+  && list_eqb Z.eqb (firstn (length geo) (skipn (zindex (hd 0 geo) dims) dims)) data_geo_dims.   (* "not consecutive" *)
